@@ -247,7 +247,7 @@ def replay_c19(path):
 # C20
 # ---------------------------------------------------------------------------------------------
 C20_TIER = {
-    "quick": dict(MaxIdx=3, NVal=2, walks=40, wlen=30, dfs_depth=1, dfs_depth_rocksdb=1, reopen_pct=15, cp_walks=10, cp_len=8),
+    "quick": dict(MaxIdx=3, NVal=2, walks=200, wlen=30, dfs_depth=1, dfs_depth_rocksdb=1, reopen_pct=25, cp_walks=10, cp_len=8),
     "thorough": dict(MaxIdx=4, NVal=2, walks=600, wlen=40, dfs_depth=2, dfs_depth_rocksdb=1, reopen_pct=20, cp_walks=120, cp_len=10),
 }
 
